@@ -603,8 +603,8 @@ char ipaths[3][280];
 C20IPlan iplan;  // the image being checked
 bool written;
 const char *no_faults[] = {nullptr};
-enum { PI_SINGLE_ROW = 0, PI_SINGLE_COL, PI_NONSQUARE, PI_WIDE, PI_CONCURRENT, PI_SEQUENTIAL, PI_DECIMAL_COMMA };
-const char *iprobe_names[] = {"single_row", "single_column", "non_square", "width_above_4000", "images_written_concurrently", "images_written_one_after_another", "process_locale_with_decimal_comma_adopted", nullptr};
+enum { PI_SINGLE_ROW = 0, PI_SINGLE_COL, PI_NONSQUARE, PI_WIDE, PI_CONCURRENT, PI_SEQUENTIAL, PI_DECIMAL_COMMA, PI_ROW_ABOVE_STACK };
+const char *iprobe_names[] = {"single_row", "single_column", "non_square", "width_above_4000", "images_written_concurrently", "images_written_one_after_another", "process_locale_with_decimal_comma_adopted", "one_row_of_9MiB_or_more", nullptr};
 const char *fmtname[] = {"PPM", "PGM", "PFM<float>", "PFM<vec3f>", "PFM<vec3fa>", "PFM<vec4f>"};
 
 void ireset()
@@ -638,6 +638,15 @@ void iplan_fn(int tier)
   decimal_comma = sim_plan(4) == 0;
   if (nimages > 1)
     sim_probe(images_sequential ? PI_SEQUENTIAL : PI_CONCURRENT);
+  // drawn last: one row larger than a thread's whole default stack (8 MiB on Linux, 512 KiB for secondary threads elsewhere)
+  if (nimages == 1 && sim_plan(40) == 39) {
+    static const int comps[] = {1, 3, 3, 4};
+    iplan.format = 2 + (int)sim_plan(4);
+    iplan.w = (int)((9u << 20) / (4u * (unsigned)comps[iplan.format - 2])) + 1 + (int)sim_plan(1000);
+    iplan.h = 1;
+    iplans[0] = iplan;
+    sim_probe(PI_ROW_ABOVE_STACK);
+  }
 }
 void one_image_plan(int tier, bool small)
 {
